@@ -174,6 +174,13 @@ func (r *RowResolver) tryResolve(m *Merge) (err error) {
 	return
 }
 
+// sameColumnsAsBase returns true if the layer neither adds nor removes columns.
+// Only then do identical row bytes mean that the row is unchanged: renaming a
+// column keeps the bytes of every row.
+func (r *RowResolver) sameColumnsAsBase(layer int) bool {
+	return len(r.cd.Added[layer]) == 0 && len(r.cd.Removed[layer]) == 0
+}
+
 // sameCellsAsBase returns true if the row in given layer only differs from base
 // row in column order (row sum changes whenever columns are rearranged)
 func (r *RowResolver) sameCellsAsBase(m *Merge, layer int) (bool, error) {
@@ -194,10 +201,10 @@ func (r *RowResolver) sameCellsAsBase(m *Merge, layer int) (bool, error) {
 func (r *RowResolver) Resolve(m *Merge) (err error) {
 	nonNils := 0
 	unchanges := 0
-	for _, sum := range m.Others {
+	for i, sum := range m.Others {
 		if sum != nil {
 			nonNils++
-			if bytes.Equal(sum, m.Base) {
+			if bytes.Equal(sum, m.Base) && r.sameColumnsAsBase(i) {
 				unchanges++
 			}
 		}
@@ -210,7 +217,7 @@ func (r *RowResolver) Resolve(m *Merge) (err error) {
 			if sum == nil {
 				continue
 			}
-			same := bytes.Equal(sum, m.Base)
+			same := bytes.Equal(sum, m.Base) && r.sameColumnsAsBase(i)
 			if !same {
 				if same, err = r.sameCellsAsBase(m, i); err != nil {
 					return err
